@@ -84,6 +84,15 @@ def run(pid, tier, seed, replay=None):
         tv["states"] += pstats["states"]
         tv["transitions"] += pstats["lines"]
         tv["coverage"]["probeParamRecords"] = pstats["lines"]
+    # C12: ordered shutdown while a scale-down / update is removing a dependent (records)
+    if pid == "C12":
+        pv, pstats = extra_records(pid, binary, seed, tier, "ordshut")
+        for v in pv:
+            for inv in v["invs"]:
+                new.append((inv, v))
+        tv["states"] += pstats["states"]
+        tv["transitions"] += pstats["lines"]
+        tv["coverage"]["orderedShutdownDuringRemovalRecords"] = pstats["lines"]
     # design model
     models = []
     for m in (cfg.get("model", []) if tier == "quick" else cfg.get("model_thorough", [])):
@@ -143,6 +152,17 @@ def probe_param_records(pid, binary, seed, tier):
     r = subprocess.run([binary, "probe", "-seed", str(seed), "-tier", tier, "-out", out], env=V.goenv(), capture_output=True, text=True)
     if r.returncode != 0:
         raise V.Inconclusive("probe record harness failed")
+    res = V.run_tlc_trace(out, os.path.join(wd, "tlc"), "PCConfigTrace")
+    return res["violations"], res
+
+
+def extra_records(pid, binary, seed, tier, sub):
+    wd = V.workdir(pid, sub)
+    out = os.path.join(wd, sub + ".ndjson")
+    r = subprocess.run([binary, sub, "-seed", str(seed), "-tier", tier, "-out", out], env=V.goenv(), capture_output=True, text=True)
+    if r.returncode != 0:
+        V.log(r.stderr[-1500:])
+        raise V.Inconclusive("%s record harness failed" % sub)
     res = V.run_tlc_trace(out, os.path.join(wd, "tlc"), "PCConfigTrace")
     return res["violations"], res
 
